@@ -984,7 +984,54 @@ fn effs_for(rules: &[&Rule], pages: &[Page]) -> Vec<Vec<Eff>> {
 // replay / check
 // ------------------------------------------------------------------------------------------------
 
+fn check_gh_spelling(g: &str, gh_pages: &[Page], l: &mut Local) {
+        let f = match adblock::filters::network::NetworkFilter::parse(g, true, Default::default()) {
+            Ok(f) => f,
+            Err(_) => {
+                l.hist("generichide-spelling-rejected");
+                return;
+            }
+        };
+        let mut fs = FilterSet::new(false);
+        fs.add_filters(["##div[x]", "##.ad", g], ParseOptions::default());
+        let e = engine_from_set(fs, true);
+        l.states += 1;
+        for p in gh_pages {
+            let req = match Request::new(&p.url, &p.url, "document") {
+                Ok(r) => r,
+                Err(_) => continue,
+            };
+            use adblock::filters::network::NetworkMatchable;
+            let exp = f.matches(&req, &mut adblock::regex_manager::RegexManager::default());
+            l.evaluations += 1;
+            l.transitions += 1;
+            l.compared += 1;
+            if exp {
+                l.nontrivial += 1;
+            }
+            match catch(|| e.url_cosmetic_resources(&p.url)) {
+                Ok(r) => {
+                    let misc = r.hide_selectors.contains("div[x]");
+                    if r.generichide != exp || misc == exp {
+                        l.mismatch(Mismatch {
+                            sig: format!("c16.generichide.spelling.{}", if exp { "not-reported" } else { "spurious" }),
+                            what: format!("rule {:?} on {}: the exception {} the page's own document request, url_cosmetic_resources says generichide={} (misc generic selector returned: {})", g, p.url, if exp { "applies to" } else { "does not apply to" }, r.generichide, misc),
+                            case: json!({"kind": "gh-spelling", "rule": g, "url": p.url}),
+                            size: (g.len() * 100 + p.url.len()) as u64,
+                        });
+                    }
+                }
+                Err(loc) => l.mismatch(Mismatch { sig: format!("c16.query-panic@{}", loc), what: format!("url_cosmetic_resources panicked at {}", loc), case: json!({"kind": "gh-spelling", "rule": g, "url": p.url}), size: 1 }),
+            }
+        }
+}
+
 fn replay(case: &Value, l: &mut Local) {
+    if case["kind"].as_str() == Some("gh-spelling") {
+        let pages: Vec<Page> = make_page(case["url"].as_str().unwrap_or("https://example.com/")).into_iter().collect();
+        check_gh_spelling(case["rule"].as_str().unwrap_or(""), &pages, l);
+        return;
+    }
     let texts: Vec<String> = case["rules"].as_array().map(|a| a.iter().filter_map(|v| v.as_str().map(|s| s.to_string())).collect()).unwrap_or_default();
     let parsed: Vec<Rule> = match texts.iter().map(|t| parse_rule(t)).collect::<Option<Vec<_>>>() {
         Some(p) => p,
@@ -994,7 +1041,7 @@ fn replay(case: &Value, l: &mut Local) {
         }
     };
     let rules: Vec<&Rule> = parsed.iter().collect();
-    let gh = case["gh"].as_u64().unwrap_or(0).min(2) as usize;
+    let gh = case["gh"].as_u64().unwrap_or(0).min(GH_RULES.len() as u64 - 1) as usize;
     let url = case["url"].as_str().unwrap_or("https://example.com/");
     let page = match make_page(url) {
         Some(p) => p,
@@ -1126,9 +1173,25 @@ fn check(ctx: &Ctx) -> i32 {
         });
     }
 
+    // generichide spellings: "a generichide exception matches the page" = the exception applies to
+    // the page's own document request (the page is its own initiator). Every spelling below is
+    // evaluated by the public matcher on Request::new(url, url, "document") and must agree with
+    // the flag url_cosmetic_resources reports (and with the presence of the misc generic selector).
+    const GH_PATTERNS: [&str; 9] = ["||example.com^", "||sub.example.com^", "|https://example.com/", "|https://", "example.com", "*", "", "/p?q", "||example.co.uk^"];
+    const GH_OPTIONS: [&str; 12] = [
+        "generichide", "ghide", "generichide,domain=example.com", "generichide,domain=sub.example.com", "generichide,domain=~sub.example.com", "generichide,domain=example.com|example.co.uk",
+        "generichide,1p", "generichide,3p", "generichide,document", "generichide,script", "generichide,domain=example.org", "generichide,~third-party,domain=~a.b.example.com",
+    ];
+    ctx.bound("generichide_spellings", GH_PATTERNS.len() * GH_OPTIONS.len());
+    let gh_pages = build_pages(true);
+    ctx.par_range("generichide spellings", (GH_PATTERNS.len() * GH_OPTIONS.len()) as u64, 1, |i, l| {
+        let g = format!("@@{}${}", GH_PATTERNS[i as usize % GH_PATTERNS.len()], GH_OPTIONS[i as usize / GH_PATTERNS.len()]);
+        check_gh_spelling(&g, &gh_pages, l);
+    });
+
     ctx.finish(
         "model_checking",
-        "every ordered list without repetition of <= 2 rules (thorough: plus every ordered triple whose rules are connected by a shared location form / body / blanket +js()) of the alphabet {36 location forms x 10 bodies x ##/#@#, minus documented-invalid forms} x 5 network sides (none, @@||example.com^$generichide, unrelated generichide, a pattern-less generichide exception with domain=example.com, one with an excluded sub-domain; triples: the first two) x page URLs (13 hosts; thorough pairs: two URL forms per host); every (list, side, page) runs url_cosmetic_resources on a freshly built engine with scriptlets s1 (function style) and s2 (template) and compares hide_selectors, procedural_actions (as JSON values), exceptions, generichide, the multiset of try-blocks and the text before them; non-trivial = some rule of the list covers or is excepted/negated for the page host, or a generic selector is returned; states = engines built, transitions = queries",
+        "every ordered list without repetition of <= 2 rules (thorough: plus every ordered triple whose rules are connected by a shared location form / body / blanket +js()) of the alphabet {36 location forms x 10 bodies x ##/#@#, minus documented-invalid forms} x 5 network sides (none, @@||example.com^$generichide, unrelated generichide, a pattern-less generichide exception with domain=example.com, one with an excluded sub-domain; triples: the first two) x page URLs (13 hosts; thorough pairs: two URL forms per host); every (list, side, page) runs url_cosmetic_resources on a freshly built engine with scriptlets s1 (function style) and s2 (template) and compares hide_selectors, procedural_actions (as JSON values), exceptions, generichide, the multiset of try-blocks and the text before them; plus 9 x 12 spellings of a generichide exception (patterns x options: domain=, party, types) whose applicability to the page's own document request is taken from the public matcher; non-trivial = some rule of the list covers or is excepted/negated for the page host, or a generic selector is returned; states = engines built, transitions = queries",
         &[
             "addr::psl's public suffix data is trusted (used by both sides); idna::domain_to_ascii is trusted for the IDN host",
             "a negated location is read as an exception for that location (uBO reading; the source documents it); where that reading and 'the rule just does not cover the host' differ — another rule or an unscoped rule provides the same body for the host — that body is Unspecified (left out of the comparison; the rest of the answer is compared)",
